@@ -251,11 +251,24 @@ def observe(cls, t, hist, with_vector=True, ic=False):
         _OBS_CACHE[key] = o
     if with_vector and 'accept' not in o:
         vec = []
-        for s in ref.DFAS[t].alphabet:
+        for s in vector_symbols(t):
             r2 = replay(cls, t, list(hist) + [['add', s, None]])
             vec.append(r2.status[-1] == 'ok')
         o['accept'] = vec
     return o
+
+
+VECTOR_LIMIT = [None]        # quick tiers bound the acceptance vector for large alphabets (set by the check driver)
+
+
+def vector_symbols(t):
+    """symbols probed by the acceptance vector: the whole alphabet, or an evenly spread subset of it when a limit is set"""
+    alpha = ref.DFAS[t].alphabet
+    lim = VECTOR_LIMIT[0]
+    if lim is None or len(alpha) <= lim:
+        return alpha
+    step = len(alpha) / float(lim)
+    return [alpha[int(i * step)] for i in range(lim)]
 
 
 def observe_pair(cls, t, h1, h2):
@@ -286,7 +299,7 @@ def diff_obs(a, b, t, compare_status=None):
     elif a['text'] != b['text']:
         out.append('text')
     if 'accept' in a and 'accept' in b and a['accept'] != b['accept']:
-        alpha = ref.DFAS[t].alphabet
+        alpha = vector_symbols(t)
         lost = [s for s, x, y in zip(alpha, a['accept'], b['accept']) if y and not x]
         gained = [s for s, x, y in zip(alpha, a['accept'], b['accept']) if x and not y]
         if lost:
